@@ -82,7 +82,7 @@ const (
 	c17ChunkLen = 40    // elements per multi-element command
 )
 
-var c17Counts = []int{0, 0, 1, 1, 1, 1, 1, 2, 2, 2, 3, 3, 7, 10, 100, 1000}
+var c17Counts = []int{0, 0, 1, 1, 1, 1, 1, 2, 2, 2, 3, 3, 7, 10, 100, 1000, 1000000000000000000, 9223372036854775807, 4611686018427387904, 2147483648}
 var c17Patterns = []string{"", "", "", "", "*", "*", "e1*", "s*", "s*", "s1*", "*7.*", "?[0-4]*", "[es]*5.*", "zz*"}
 var c17Types = []string{"string", "hash", "set", "list", "zset"}
 var c17KeyTypes = []string{"string", "hash", "set", "list"}
